@@ -219,6 +219,10 @@ SEEDED = (
 )
 
 
+class _WhereFilter:
+  """Stand-in for the `where` filter of a permutation recombinator."""
+
+
 class _SeededRng(Contract):
   prop = 'C14'
   variants = ('seed=None', 'seed=int')
@@ -226,7 +230,10 @@ class _SeededRng(Contract):
 
   def inputs(self, b):
     self._seed = None if self.variant == 'seed=None' else b.int('seed')
-    fields = {'seed': self._seed, 'ops': [], 'where': SAny('where'), '_sym_attributes': SAny('attrs')}
+    # the decision-point filter of the permutation recombinators may carry a seed of its own
+    self._where = SObj(_WhereFilter, {'seed': b.choice('where_seed_kind', [None, b.int('where_seed')])}, name='where')
+    self._where_has_seed = b.bool('where_has_seed')
+    fields = {'seed': self._seed, 'ops': [], 'where': self._where, '_sym_attributes': SAny('attrs')}
     s = SObj(self.owner, fields, name='self')
     s.ghost['raw_setattr'] = True
     return dict(self=s), {}
@@ -239,6 +246,18 @@ class _SeededRng(Contract):
       interp.path.event('rng', 'random.Random', ([interp.resolve(a) for a in args], dict(kwargs), r))
       return r
     policy.handlers[('new', _random.Random)] = new_rng
+
+    def getattr_h(interp, obj, name, frame):
+      if isinstance(obj, SObj) and obj.cls is _WhereFilter:
+        if name == 'sym_hasattr':
+          return I.NativeFn(lambda ip, a, k: me._where_has_seed if a and a[0] == 'seed' else False)
+        if name == 'rebind':
+          def rebind(ip, a, k):
+            ip.path.event('where-rebind', 'where.rebind', ([ip.resolve(x) for x in a], {kk: ip.resolve(v) for kk, v in k.items()}))
+            return obj
+          return I.NativeFn(rebind)
+      return NotImplemented
+    policy.handlers[('getattr', SObj)] = getattr_h
     # whatever else the hook sets up does not concern the random source
     for cls in self.owner.__mro__[1:]:
       for hook in ('_on_bound', '_setup', '_on_init'):
@@ -259,12 +278,36 @@ class _SeededRng(Contract):
     given = args[0] if args else kwargs.get('x')
     return given is self._seed
 
+  def trace_seed_is_pushed_into_a_seeded_filter(self, events, outcome, interp, env):
+    """A filter that has a seed of its own always follows the operator's seed
+    (whatever seed it had before): otherwise an operator whose seed was changed
+    behaves unlike a fresh operator with that seed."""
+    if outcome[0] != 'return' or self.owner.__name__ != 'Permutation':
+      return True
+    rb = [e for e in events if e.kind == 'where-rebind']
+    one = len(rb) == 1 and rb[0].data[1].get('seed', 'absent') is (self._seed if self._seed is not None else None)
+    z = interp.to_z3(self._where_has_seed)
+    return z3.And(z3.Implies(z, z3.BoolVal(one)), z3.Implies(z3.Not(z), z3.BoolVal(not rb)))
+
   def small_models(self):
     from pyvc.contracts import Model
     for sd in (0, 1, 7):
       yield Model(dict(seed=sd), {})
 
   def replay(self, obligation, m):
+    if 'seeded_filter' in obligation:
+      from pyglove.ext.evolution import recombinators as _rc
+      spec_ = pg.dna_spec(pg.Dict(a=pg.permutate(range(6)), b=pg.permutate(range(6))))
+      p1, p2 = pg.DNA([[0, 1, 2, 3, 4, 5], [5, 4, 3, 2, 1, 0]], spec=spec_), pg.DNA([[3, 4, 5, 0, 1, 2], [0, 2, 4, 1, 3, 5]], spec=spec_)
+      bad = []
+      for cls in (_rc.PartiallyMapped, _rc.Order, _rc.Cycle):
+        fresh = cls(seed=5)
+        moved = cls(seed=1).rebind(seed=5)
+        a = [str(fresh.recombine([p1, p2], pg.geno.AttributeDict(), 0)) for _ in range(3)]
+        b2 = [str(moved.recombine([p1, p2], pg.geno.AttributeDict(), 0)) for _ in range(3)]
+        if a != b2:
+          bad.append(f'{cls.__name__}(seed=1).rebind(seed=5) gives {b2[:1]}, a fresh {cls.__name__}(seed=5) gives {a[:1]}')
+      return dict(outcome='reproduced' if bad else 'not-reproduced', detail='; '.join(bad) or 're-seeded operator behaves as fresh')
     sd = m.get('seed') if self.variant == 'seed=int' else None
     if self.variant == 'seed=int' and not isinstance(sd, int):
       sd = 0
